@@ -1,3 +1,123 @@
-import GV.Model.Engine
+/-
+  Props/C01.lean — Every accepted operation resolves exactly once, with its own acknowledgement.
+  About Model/Engine.lean: `complete_operation_as_success/failure`, the ack handlers, `reset`.
+-/
+import GV.Proofs.EngineBasics
 namespace GV.Props.C01
+open GV
+
+/-- what an operation of this kind may be completed with (`complete_operation_with_result`) -/
+theorem result_matches_operation_kind (p : Packet) (c : Option Completion) (res : Completion) (h : resultFor p c = some res) :
+    (∃ pb, p = .publish pb ∧ (res = .qos0 ∨ (∃ a b, res = .puback a b) ∨ (∃ a b, res = .pubrec a b) ∨ (∃ a b, res = .pubcomp a b))) ∨
+    (∃ s a b, p = .subscribe s ∧ res = .suback a b) ∨ (∃ s a b, p = .unsubscribe s ∧ res = .unsuback a b) := by
+  cases p <;> cases c <;> simp [resultFor] at h
+  case publish.none pb => exact .inl ⟨pb, rfl, .inl h.symm⟩
+  case publish.some pb c =>
+    cases c <;> simp [resultFor] at h
+    case puback a b => exact .inl ⟨pb, rfl, .inr (.inl ⟨a, b, h.symm⟩)⟩
+    case pubrec a b => exact .inl ⟨pb, rfl, .inr (.inr (.inl ⟨a, b, h.symm⟩))⟩
+    case pubcomp a b => exact .inl ⟨pb, rfl, .inr (.inr (.inr ⟨a, b, h.symm⟩))⟩
+  case subscribe.some s c =>
+    cases c <;> simp [resultFor] at h
+    case suback a b => exact .inr (.inl ⟨s, a, b, rfl, h.symm⟩)
+  case unsubscribe.some s c =>
+    cases c <;> simp [resultFor] at h
+    case unsuback a b => exact .inr (.inr ⟨s, a, b, rfl, h.symm⟩)
+
+/-- **Success delivers exactly one result and stops tracking the operation**, releasing its packet id. -/
+theorem success_resolves_once (e : Engine) (id idx : Nat) (o : Op) (t : Option Nat) (c : Option Completion) (res : Completion)
+    (ho : e.op? id = some o) (hu : o.user = some (idx, t)) (hnd : isDisconnect o.packet = false) (hss : o.slowStart = 0)
+    (hres : resultFor o.packet c = some res) :
+    ∃ e', e.completeSuccess id c = (e', .ok) ∧ e'.outComps = e.outComps ++ [(idx, res)] ∧ e'.op? id = none := by
+  have hA : ∀ en : Engine, en.applyAckable o = some en := by
+    intro en; simp [Engine.applyAckable, hss]
+  have hD : ∀ en : Engine, en.applyDisconnectCompletion o = (en, .ok) := by
+    intro en; simp [Engine.applyDisconnectCompletion, hnd]
+  have hP : ∀ en : Engine, (en.applyPingExtension o).outComps = en.outComps ∧ (en.applyPingExtension o).ops = en.ops := by
+    intro en
+    obtain ⟨np, h⟩ := applyPingExtension_only_nextPing en o
+    rw [h]; exact ⟨rfl, rfl⟩
+  simp only [Engine.completeSuccess, ho, hA, hD, hu, hres, Res.isOk, Bool.not_true, Bool.false_eq_true, ↓reduceIte]
+  refine ⟨_, rfl, ?_, ?_⟩
+  · simp [Engine.emit, (hP _).1, (releaseIds_ops _ o).2.1]
+  · simp [Engine.emit, Engine.op?, (hP _).2, (releaseIds_ops _ o).1, lookup_mapErase_self]
+
+/-- **Failure delivers exactly one error and stops tracking the operation.** -/
+theorem failure_resolves_once (e : Engine) (id idx : Nat) (o : Op) (t : Option Nat) (k : String)
+    (ho : e.op? id = some o) (hu : o.user = some (idx, t)) (hnd : isDisconnect o.packet = false) (hss : o.slowStart = 0) :
+    ∃ e', e.completeFailure id k = (e', .ok) ∧ e'.outComps = e.outComps ++ [(idx, .err k)] ∧ e'.op? id = none := by
+  have hA : ∀ en : Engine, en.applyAckable o = some en := by
+    intro en; simp [Engine.applyAckable, hss]
+  have hD : ∀ en : Engine, en.applyDisconnectCompletion o = (en, .ok) := by
+    intro en; simp [Engine.applyDisconnectCompletion, hnd]
+  simp only [Engine.completeFailure, ho, hA, hD, hu, Res.isOk, Bool.not_true, Bool.false_eq_true, ↓reduceIte]
+  refine ⟨_, rfl, ?_, ?_⟩
+  · simp [Engine.emit, (releaseIds_ops _ o).2.1]
+  · simp [Engine.emit, Engine.op?, (releaseIds_ops _ o).1, lookup_mapErase_self]
+
+/-- **Never twice.**  Completing an operation that is no longer tracked delivers nothing. -/
+theorem second_completion_delivers_nothing (e : Engine) (id : Nat) (c : Option Completion) (k : String) (h : e.op? id = none) :
+    (e.completeSuccess id c).1.outComps = e.outComps ∧ (e.completeFailure id k).1.outComps = e.outComps := by
+  simp [Engine.completeSuccess, Engine.completeFailure, h]
+
+/-- **A PUBACK completes only the QoS 1 publish that was sent with its packet id**; an unknown id, or the id of a
+    QoS 2 publish, is a protocol error and completes nothing. -/
+theorem puback_completes_its_own (e : Engine) (a : Ack) (hs : stateBlocksAcks e.state = false) :
+    (e.handlePuback a = (e, .err "ProtocolError")) ∨
+    (∃ opId, e.pendingPub.lookup a.packetId = some opId ∧ ((e.op? opId).bind (fun o => publishQos o.packet)) = some 1 ∧
+      e.handlePuback a = e.completeSuccess opId (some (.puback a.packetId a.reasonCode))) := by
+  simp only [Engine.handlePuback, hs, Bool.false_eq_true, ↓reduceIte]
+  cases hl : e.pendingPub.lookup a.packetId with
+  | none => left; rfl
+  | some opId =>
+    simp only []
+    split
+    · rename_i hq; right; exact ⟨opId, rfl, by simpa using hq, rfl⟩
+    · left; rfl
+
+/-- **A SUBACK completes only the SUBSCRIBE sent with its packet id, and only with one reason code per
+    requested subscription.** -/
+theorem suback_completes_its_own (e : Engine) (s : Suback) (hs : stateBlocksAcks e.state = false) :
+    (∃ r, e.handleSuback s = (e, r) ∧ r ≠ .ok) ∨
+    (∃ opId o sub, e.pendingNonPub.lookup s.packetId = some opId ∧ e.op? opId = some o ∧ o.packet = .subscribe sub ∧
+      s.reasonCodes.length = sub.subscriptions.length ∧
+      e.handleSuback s = e.completeSuccess opId (some (.suback s.packetId s.reasonCodes))) := by
+  simp only [Engine.handleSuback, hs, Bool.false_eq_true, ↓reduceIte]
+  cases hl : e.pendingNonPub.lookup s.packetId with
+  | none => left; exact ⟨_, rfl, by simp⟩
+  | some opId =>
+    simp only []
+    cases ho : e.op? opId with
+    | none => left; exact ⟨_, rfl, by simp⟩
+    | some o =>
+      simp only []
+      cases hp : o.packet <;> simp only [] <;> try (left; exact ⟨_, rfl, by simp⟩)
+      rename_i sub
+      by_cases hlen : s.reasonCodes.length ≠ sub.subscriptions.length
+      · rw [if_pos hlen]; left; exact ⟨_, rfl, by simp⟩
+      · rw [if_neg hlen]; right
+        exact ⟨opId, o, sub, rfl, ho, hp, by simpa using hlen, rfl⟩
+
+/-- **A PUBCOMP completes only a QoS 2 publish whose PUBREC was received** (PUBREL pending) under that id. -/
+theorem pubcomp_needs_pubrec (e : Engine) (a : Ack) (opId : Nat) (o : Op) (p : Publish) (hs : stateBlocksAcks e.state = false)
+    (hl : e.pendingPub.lookup a.packetId = some opId) (ho : e.op? opId = some o) (hp : o.packet = .publish p)
+    (hnone : o.pubrel = none) : e.handlePubcomp a = (e, .err "ProtocolError") := by
+  simp only [Engine.handlePubcomp, hs, Bool.false_eq_true, ↓reduceIte, hl, ho, hp, hnone]
+  split <;> rfl
+
+/-- **Reset (client closed): nothing stays tracked.** -/
+theorem reset_leaves_nothing (e : Engine) :
+    e.reset.ops = [] ∧ e.reset.userQ = [] ∧ e.reset.resubQ = [] ∧ e.reset.highQ = [] ∧ e.reset.current = none ∧
+    e.reset.pendingPub = [] ∧ e.reset.pendingNonPub = [] ∧ e.reset.pendingWC = [] ∧ e.reset.allocated = [] ∧
+    e.reset.timeouts = [] ∧ e.reset.inQos2 = [] := by
+  simp [Engine.reset]
+
+/-- non-vacuity for `success_resolves_once`: a tracked QoS 1 publish completed by its PUBACK -/
+example : ∃ e', ({ cfg := {}, ops := [(5, { id := 5, packet := .publish { qos := 1, packetId := 9 }, user := some (0, none), packetId := some 9 })] } : Engine).completeSuccess 5 (some (.puback 9 0)) = (e', .ok)
+    ∧ e'.outComps = [(0, .puback 9 0)] ∧ e'.op? 5 = none := by
+  have := success_resolves_once { cfg := {}, ops := [(5, { id := 5, packet := .publish { qos := 1, packetId := 9 }, user := some (0, none), packetId := some 9 })] }
+    5 0 { id := 5, packet := .publish { qos := 1, packetId := 9 }, user := some (0, none), packetId := some 9 } none (some (.puback 9 0)) (.puback 9 0)
+    (by decide) rfl rfl rfl rfl
+  simpa using this
+
 end GV.Props.C01
